@@ -149,10 +149,13 @@ func expect(op string, a, b operand) expectation {
 		case a.isZero() && b.isZero():
 			return expectation{kind: expNaNPanic}
 		case b.isZero():
+			// documented: "If the other value is exactly zero, this operation will return either
+			// PositiveInfinity or NegativeInfinity, depending on the sign of the receiver value."
+			// Negative zero is exactly zero (it Equals Zero and has no sign of its own in cty), so
+			// the sign of the receiver alone decides (F-14). Kept in its own class.
 			if b.negZero {
-				return expectation{kind: expRecord, class: "neg-zero-divisor"}
+				return expectation{kind: expValue, val: inf(an.Sign()), class: "neg-zero-divisor"}
 			}
-			// documented: the infinity whose sign is the receiver's
 			return expectation{kind: expValue, val: inf(an.Sign())}
 		case an.Inf != 0:
 			return expectation{kind: expValue, val: inf(an.Inf * bn.Sign())}
@@ -259,7 +262,14 @@ func numText(n model.Num) string {
 // compareArith checks a numeric result against the exact value. facet == "" means it agrees.
 // rounded reports that an exact integer result that fits the documented 512 bits came back
 // inexact (within tolerance): an observation, not a violation.
-func compareArith(got *big.Float, want model.Num, p uint) (facet string, rounded bool) {
+//
+// exactBits is the mantissa width within which an exactly representable result must come back
+// exact: the operand precision p in general; 512 for Multiply, whose documented precision
+// selection (value_ops.go: "make sure we have enough precision for the product ... reduce the
+// precision back to the greater argument, or the minimum required by the product"; CHANGELOG
+// 1.7.1: "avoids generating incorrect results for large integer operands") keeps every product
+// that fits the documented 512 bits.
+func compareArith(got *big.Float, want model.Num, p, exactBits uint) (facet string, rounded bool) {
 	if want.Inf != 0 {
 		if !got.IsInf() {
 			return "infinite result expected, got a finite number", false
@@ -278,6 +288,9 @@ func compareArith(got *big.Float, want model.Num, p uint) (facet string, rounded
 	}
 	if fitsBits(want.R, p) {
 		return "exact integer result expected (it fits in the operand precision)", false
+	}
+	if exactBits > p && dyadicFits(want.R, exactBits) {
+		return "Multiply: a product that fits in 512 bits must be exact (documented precision selection)", false
 	}
 	if !closeRel(g, want.R, p) {
 		return "result outside relative tolerance 2^-(p-2) of the exact value", false
@@ -398,6 +411,9 @@ func outcomeOf(out core.Outcome, res cty.Value, a operand) string {
 	return "other finite number"
 }
 
+// sampledRecorded limits the evidence samples of recorded (not asserted) classes to one per class.
+var sampledRecorded = map[string]bool{}
+
 func isErrNaN(out core.Outcome) bool {
 	_, ok := out.PanicVal.(big.ErrNaN)
 	return ok
@@ -434,23 +450,16 @@ func checkNum(c *core.Ctx, idx int64, op numOp, a, b operand, sampled bool) bool
 	}
 	ex := expect(op.name, a, b)
 	p := minPrec(a, b, unary)
+	if ex.kind != expRecord && ex.class != "" {
+		pairClass = ex.class
+		c.Count("input-class:" + ex.class)
+	}
 
 	switch ex.kind {
 	case expRecord:
 		oc := outcomeOf(out, res, a)
 		key := "recorded:" + ex.class + ":" + op.name + ": "
 		switch ex.class {
-		case "neg-zero-divisor":
-			// F-14: which infinity comes back when the divisor is negative zero
-			want := "+Inf"
-			if a.n.Sign() < 0 {
-				want = "-Inf"
-			}
-			if oc == want {
-				key += "sign follows the receiver"
-			} else {
-				key += "receiver sign " + signText(a.n.Sign()) + " gave " + oc
-			}
 		case "modulo-zero-divisor":
 			want := "+Inf"
 			if a.n.Sign() < 0 {
@@ -468,7 +477,8 @@ func checkNum(c *core.Ctx, idx int64, op numOp, a, b operand, sampled bool) bool
 			key += oc
 		}
 		c.Count(key)
-		if c.WantSample() && !sampled && idx >= baseCorpus {
+		if c.WantSample() && !sampled && idx >= baseCorpus && !sampledRecorded[ex.class] && len(sampledRecorded) < 2 {
+			sampledRecorded[ex.class] = true
 			c.Sample(map[string]any{"kind": "recorded-not-asserted", "class": ex.class, "call": desc(), "outcome": oc})
 		}
 		return false
@@ -517,7 +527,14 @@ func checkNum(c *core.Ctx, idx int64, op numOp, a, b operand, sampled bool) bool
 		if got.Sign() == 0 && got.Signbit() {
 			c.Count("neg-zero-result:" + op.name)
 		}
-		facet, rounded := compareArith(got, ex.val, p)
+		exactBits := p
+		if op.name == "Multiply" {
+			exactBits = 512
+		}
+		facet, rounded := compareArith(got, ex.val, p, exactBits)
+		if exactBits > p && ex.val.Inf == 0 && !fitsBits(ex.val.R, p) && dyadicFits(ex.val.R, exactBits) {
+			c.Count("clause:multiply-product-fits-512-bits-exact")
+		}
 		switch {
 		case ex.val.Inf != 0:
 			c.Count("clause:infinite-result")
@@ -571,16 +588,6 @@ func expText(ex expectation) string {
 		return "panic big.ErrNaN"
 	}
 	return "(recorded)"
-}
-
-func signText(s int) string {
-	switch {
-	case s < 0:
-		return "negative"
-	case s > 0:
-		return "positive"
-	}
-	return "zero"
 }
 
 // checkZeroEquals asserts the one thing demanded of negative zero: it equals zero.
